@@ -36,17 +36,58 @@ example : exNotes ≠ [] ∧ t0Of exOpts exNotes = 0 ∧ t0Of { exOpts with remo
   decide +kernel
 
 /-- the onset frame is the nearest frame (ties to the even one) to `time_div * (onset - t0)`, shifted by the
-    leading margin; a note lasts `max(1, round(time_div * duration))` frames -/
+    leading margin (`margin_spec`); a note lasts `max(1, round(time_div * duration))` frames -/
 theorem frames_spec (o : Opts) (t0 : Rat) (n : Note) :
-    |((onFrame o t0 n - o.timeMargin * o.timeDiv : Int) : Rat) - (o.timeDiv : Rat) * (n.onset - t0)| ≤ 1 / 2 ∧
+    |((onFrame o t0 n - marginFrames o : Int) : Rat) - (o.timeDiv : Rat) * (n.onset - t0)| ≤ 1 / 2 ∧
     offFull o t0 n - onFrame o t0 n = max 1 (roundHalfEven ((o.timeDiv : Rat) * n.dur)) := by
   constructor
   · have := Round.roundHalfEven_close ((o.timeDiv : Rat) * (n.onset - t0))
-    unfold onFrame marginFrames
+    unfold onFrame
     simpa using this
   · unfold offFull durFrames
     simp only
     split <;> omega
+
+/-- **the margins, for every number `time_margin`** (the code never converts it): the leading margin is
+    `int(time_margin * time_div)` — the product truncated toward zero — and the trailing margin is
+    `time_div * time_margin` itself, the column count being rounded up afterwards (`shape_cols`); for an
+    integer margin both are `time_margin * time_div` frames -/
+theorem margin_spec (o : Opts) :
+    (0 ≤ o.timeMargin * (o.timeDiv : Rat) →
+      0 ≤ marginFrames o ∧ (marginFrames o : Rat) ≤ o.timeMargin * (o.timeDiv : Rat) ∧
+      o.timeMargin * (o.timeDiv : Rat) < (marginFrames o : Rat) + 1) ∧
+    (o.timeMargin * (o.timeDiv : Rat) < 0 →
+      marginFrames o ≤ 0 ∧ o.timeMargin * (o.timeDiv : Rat) ≤ (marginFrames o : Rat) ∧
+      (marginFrames o : Rat) - 1 < o.timeMargin * (o.timeDiv : Rat)) ∧
+    (∀ k : Int, o.timeMargin = (k : Rat) →
+      marginFrames o = k * o.timeDiv ∧ Rat.ceil (trailMargin o) = o.timeDiv * k) := by
+  refine ⟨?_, ?_, ?_⟩
+  · intro h
+    unfold marginFrames truncRat
+    rw [if_pos h]
+    refine ⟨Rat.le_floor_iff.mpr (by simpa using h), Rat.floor_le _, ?_⟩
+    have := Rat.lt_floor_add_one (o.timeMargin * (o.timeDiv : Rat))
+    push_cast at this
+    exact this
+  · intro h
+    unfold marginFrames truncRat
+    rw [if_neg (not_le.mpr h)]
+    refine ⟨Rat.ceil_le_iff.mpr (by simpa using le_of_lt h), Rat.le_ceil, ?_⟩
+    have := (Rat.lt_ceil_iff (x := o.timeMargin * (o.timeDiv : Rat))
+      (y := (o.timeMargin * (o.timeDiv : Rat)).ceil - 1)).mp (by omega)
+    push_cast at this
+    exact this
+  · intro k hk
+    unfold marginFrames trailMargin truncRat
+    rw [hk]
+    have e1 : (k : Rat) * (o.timeDiv : Rat) = ((k * o.timeDiv : Int) : Rat) := by push_cast; ring
+    have e2 : (o.timeDiv : Rat) * (k : Rat) = ((o.timeDiv * k : Int) : Rat) := by push_cast; ring
+    rw [e1, e2, Rat.floor_intCast, Rat.ceil_intCast]
+    exact ⟨by split <;> rfl, rfl⟩
+
+example : marginFrames { exOpts with timeDiv := 3, timeMargin := 1/2 } = 1 ∧
+    Rat.ceil (trailMargin { exOpts with timeDiv := 3, timeMargin := 1/2 }) = 2 ∧
+    marginFrames { exOpts with timeDiv := 3, timeMargin := -1/2 } = -1 := by decide +kernel
 
 /-- every note occupies at least one frame, in every mode; note separation removes exactly the last frame of a
     note that has more than one; onset mode keeps exactly the onset frame -/
@@ -80,14 +121,15 @@ theorem shape_rows (o : Opts) (notes : List Note) (r : Roll) (h : makePianoroll 
   shape_rows_aux o notes r h
 
 /-- as many columns as the time span requires: the trailing margin after the last note end (taken before note
-    separation / onset mode shorten the notes; the leading margin is inside the frames), or, with `end_time`,
-    the frames up to `end_time`, which must not precede the last note end -/
+    separation / onset mode shorten the notes; the leading margin is inside the frames; a fractional number of
+    margin frames is rounded up), or, with `end_time`, the frames up to `end_time` (rounded up), which must not
+    precede the last note end -/
 theorem shape_cols (o : Opts) (notes : List Note) (r : Roll) (h : makePianoroll o notes = some r) :
     ∃ last, (∃ n ∈ notes, offFull o (t0Of o notes) n = last) ∧ (∀ n ∈ notes, offFull o (t0Of o notes) n ≤ last) ∧
-      (o.endTime = none → r.cols = o.timeDiv * o.timeMargin + last) ∧
+      (o.endTime = none → r.cols = Rat.ceil (trailMargin o) + last) ∧
       (∀ e, o.endTime = some e →
         (last : Rat) ≤ (e - t0Of o notes) * (o.timeDiv : Rat) ∧
-        r.cols = Rat.ceil (((o.timeDiv * o.timeMargin : Int) : Rat) + (o.timeDiv : Rat) * (e - t0Of o notes))) := by
+        r.cols = Rat.ceil (trailMargin o + (o.timeDiv : Rat) * (e - t0Of o notes))) := by
   obtain ⟨hne, _, N, hN, _, rfl⟩ := (makePianoroll_eq_some o notes r).mp h
   obtain ⟨last, hl⟩ := best?_isSome_of_ne_nil (fun a b : Int => decide (b ≤ a))
     (l := notes.map (offFull o (t0Of o notes))) (by simpa using hne)
@@ -100,6 +142,7 @@ theorem shape_cols (o : Opts) (notes : List Note) (r : Roll) (h : makePianoroll 
     unfold colsOf at hN
     rw [he, hmax] at hN
     simp only [Option.some.injEq] at hN
+    rw [Rat.ceil_add_intCast] at hN
     simp [rollOf, hN]
   · intro e he
     unfold colsOf at hN
@@ -236,7 +279,7 @@ theorem idx_rows (o : Opts) (notes : List Note) (r : Roll) (h : makePianoroll o 
     r.idx = notes.map fun n =>
       (rowOf o (lowestOf o notes) n - r.rowStart, onFrame o (t0Of o notes) n, offIdx o (t0Of o notes) n, n.pitch) := by
   obtain ⟨_, _, N, _, _, rfl⟩ := (makePianoroll_eq_some o notes r).mp h
-  simp only [rollOf, idxOf_eq]
+  simp only [rollOf, idxOf_eq, idxStartOf_eq]
   rfl
 
 /-- **the index rows designate exactly the non-zero cells**: cell `(p, j)` is non-zero iff some index row has
@@ -273,15 +316,16 @@ theorem piano_range (o : Opts) (notes : List Note) (r : Roll)
   refine ⟨rollOf { o with pianoRange := true } notes N, ?_, ?_, rfl, ?_, ?_⟩
   · rw [makePianoroll_eq_some]
     exact ⟨hne, hd, N, hN, hb, rfl⟩
-  · simp only [rollOf, Bool.false_eq_true, if_false, if_true]
+  · simp only [rollOf, Bool.false_eq_true, if_false, if_true, slicedRows_eq]
     have : rowsFull { o with pianoRange := true } notes = rowsFull { o with pianoRange := false } notes := rfl
     rw [this]
     omega
   · intro p j hp0 hp1
     have hf : fillOf { o with pianoRange := true } notes = fillOf { o with pianoRange := false } notes := rfl
     have hR : rowsFull { o with pianoRange := true } notes = rowsFull { o with pianoRange := false } notes := rfl
-    simp only [rollOf, if_true, hR] at hp1
-    simp only [Roll.cell, rollOf, rowStartOf, if_true, Bool.false_eq_true, if_false, hf, hR, add_zero]
+    simp only [rollOf, if_true, hR, slicedRows_eq] at hp1
+    simp only [Roll.cell, rollOf, rowStartOf, if_true, Bool.false_eq_true, if_false, hf, hR, add_zero, slicedRows_eq,
+      tbl_piano_lo]
     have hg : (0 ≤ p + 21 ∧ p + 21 < rowsFull { o with pianoRange := false } notes) := by
       constructor
       · omega
@@ -292,8 +336,9 @@ theorem piano_range (o : Opts) (notes : List Note) (r : Roll)
   · simp only [rollOf, idxOf_eq, map_map]
     apply map_congr_left
     intro n _
-    show idxRow { o with pianoRange := true } _ _ 21 n = _
-    simp only [Function.comp, idxRow, rowStartOf, Bool.false_eq_true, if_false, sub_zero]
+    show idxRow { o with pianoRange := true } _ _ (idxStartOf { o with pianoRange := true }) n = _
+    simp only [Function.comp, idxRow, idxStartOf, Bool.false_eq_true, if_false, if_true, tbl_idx_start,
+      tbl_idx_start_piano, sub_zero]
     rfl
 
 example : (makePianoroll { exOpts with pianoRange := true } exNotes).map (fun r => (r.rows, r.cell 39 4, r.cell 41 0))
@@ -321,7 +366,7 @@ theorem pc_fold (r : Roll) (hr : r.rows ≤ 128) (c : Nat) (hc : c < 12) (j : In
     pcCell r c j = sumOver (fun p => r.cell p j) ((range 128).filter (fun p => p % 12 = c)) := by
   have h0 : pcCell r c j = sumOver (fun i => (fun p : Nat => r.cell p j) (12 * i + c)) (range 11) := by
     unfold pcCell sumOver
-    simp only [Nat.cast_add, Nat.cast_mul, Nat.cast_ofNat]
+    simp only [Nat.cast_add, Nat.cast_mul, Nat.cast_ofNat, tbl_pc_slices, tbl_pc_step]
   rw [h0, ← sumOver_fold (fun p : Nat => r.cell p j) c hc 11]
   have h132 : range (12 * 11) = range 128 ++ [128, 129, 130, 131] := by decide
   rw [h132, filter_append, sumOver_append]
@@ -339,45 +384,6 @@ theorem pc_fold (r : Roll) (hr : r.rows ≤ 128) (c : Nat) (hc : c < 12) (j : In
     omega
   rw [hz]
   omega
-
-/-- the fold behind `compute_pitch_class_pianoroll`: always the 128-row, non-binary, drum-free roll of the
-    same notes, whose index rows get their vertical position reduced mod 12 -/
-theorem pc_base (a : NoteArray) (g : Args) (r : Roll) (h : computePcBase a g = some r) :
-    ∃ o notes r0,
-      prepare a { g with removeDrums := true,
-                         opts := { g.opts with pitchMargin := -1, pianoRange := false, binary := false } } = some (o, notes) ∧
-      o.pitchMargin = -1 ∧ o.pianoRange = false ∧ o.binary = false ∧
-      makePianoroll o notes = some r0 ∧ r.rows = 128 ∧ r.cols = r0.cols ∧
-      (∀ p j, r.cell p j = r0.cell p j) ∧
-      r.idx = r0.idx.map fun (p, on, off, mp) => (p % 12, on, off, mp) := by
-  unfold computePcBase computePianoroll at h
-  split at h
-  · simp at h
-  · rename_i r0 hr0
-    split at hr0
-    · simp at hr0
-    · rename_i o notes hprep
-      simp only [Option.some.injEq] at h
-      subst h
-      have hopts : o.pitchMargin = -1 ∧ o.pianoRange = false ∧ o.binary = false := by
-        unfold prepare at hprep
-        simp only at hprep
-        split at hprep
-        · simp at hprep
-        · split at hprep
-          · simp at hprep
-          · split at hprep
-            · simp at hprep
-            · split at hprep
-              · simp at hprep
-              · split at hprep
-                · simp at hprep
-                · simp only [Option.some.injEq, Prod.mk.injEq] at hprep
-                  obtain ⟨ho, _⟩ := hprep
-                  subst ho
-                  exact ⟨rfl, rfl, rfl⟩
-      refine ⟨o, notes, r0, hprep, hopts.1, hopts.2.1, hopts.2.2, hr0, ?_, rfl, fun p j => rfl, rfl⟩
-      exact (shape_rows o notes r0 hr0).1 hopts.1 hopts.2.1
 
 /-- **normalised per frame**: every column of the normalised pitch-class roll sums to 1 or is entirely 0 -/
 theorem pc_normalised (r : Roll) (b : Bool) (j : Int) (hnn : ∀ p j, 0 ≤ r.cell p j) :
@@ -412,9 +418,9 @@ theorem pc_column (r : Roll) (b nz : Bool) (j : Int) :
     pcColumn r b nz j = (range 12).map fun (c : Nat) => pcOut r b nz (c : Int) j := by
   have hs : ((range 12).map fun (c : Nat) => pcValue r b (c : Int) j).foldr (fun v acc => v + acc) 0 = pcColSum r b j := by
     unfold pcColSum
-    rw [foldr_map]
+    rw [foldr_map, tbl_pc_rows]
   unfold pcColumn
-  simp only [hs, map_map]
+  simp only [tbl_pc_rows, hs, map_map]
   cases nz <;> simp [pcOut, Function.comp_def]
 
 /-- without normalisation the entries are the folded integers (1 for every sounding class when binary) -/
@@ -439,7 +445,7 @@ theorem auto_units (units : List String) :
   unfold timeUnitsAuto
   cases h1 : units.contains "beat" <;> cases h2 : units.contains "quarter" <;> cases h3 : units.contains "div" <;>
     cases h4 : units.contains "sec" <;> cases h5 : units.contains "tick" <;>
-    simp only [List.find?, h1, h2, h3, h4, h5] <;> rfl
+    simp only [TIME_UNITS, Gen.C13_TIME_UNITS, List.filter, List.find?, h1, h2, h3, h4, h5] <;> decide
 
 /-- **field selection, unit inference, drum filtering**: a successful `compute_pianoroll` hands
     `_make_pianoroll` the rows in input order — without the rows of channel 9 when a channel column exists and
@@ -510,22 +516,22 @@ example : (prepare exArray { exArgs with timeUnit := "sec", timeDiv := some 2, r
     (fun x => (x.1.timeDiv, x.2)) = some (2, [⟨60, 0, 1/2, 80⟩, ⟨36, 1/2, 1/2, 100⟩]) := by decide +kernel
 example : prepare exArray { exArgs with timeUnit := "seconds" } = none ∧
     prepare exArray { exArgs with timeUnit := "tick" } = none := by decide +kernel
-example : (computePcBase exArray exArgs).map (fun r => (r.rows, r.cols)) = some (128, 16) := by decide +kernel
-example : (computePcBase exArray exArgs).map (fun r => r.idx) = some [(0, 0, 16, 60)] := by decide +kernel
 
 /-- eight frames per beat / quarter / second, one per div / tick -/
 theorem auto_time_div : TIME_UNITS.map autoTimeDiv = [some 8, some 8, some 8, some 1, some 1] := by decide
 
 /-! ### the inverse: `pianoroll_to_notearray` -/
 
-/-- **decoder, every integer matrix**: only 128- and 88-row rolls are accepted (pitch offset 0 / 21); the notes
-    returned are, without repetition and sorted by (onset, pitch, offset, velocity), exactly the maximal
-    horizontal runs of one non-zero value: `pitch = row + offset`, `onset = start / time_div`,
-    `duration = length / time_div`, `velocity = value` -/
-theorem decode_spec (rows : Nat) (cols : List (List Int)) (td : Int) :
+/-- **decoder, every integer matrix** (negative values, empty, a single column, ... — and every number
+    `time_div`): only 128- and 88-row rolls are accepted (pitch offset 0 / 21); `time_div = 0` is a division by
+    zero as soon as there is a note; otherwise the notes returned are, without repetition and sorted by (onset,
+    pitch, offset, velocity), exactly the maximal horizontal runs of one non-zero value: `pitch = row + offset`,
+    `onset = start / time_div`, `duration = length / time_div`, `velocity = value` -/
+theorem decode_spec (rows : Nat) (cols : List (List Int)) (td : Rat) :
     ((rows ≠ 128 ∧ rows ≠ 88) → decode rows cols td = none) ∧
     ∀ init, (rows = 128 ∧ init = 0) ∨ (rows = 88 ∧ init = 21) →
-      decode rows cols td = some ((decodeRuns cols).map (outOf init td)) ∧
+      (td = 0 → decodeRuns cols ≠ [] → decode rows cols td = none) ∧
+      (td ≠ 0 ∨ decodeRuns cols = [] → decode rows cols td = some ((decodeRuns cols).map (outOf init td))) ∧
       (decodeRuns cols).Nodup ∧ (decodeRuns cols).Pairwise (fun a b => runLe a b = true) ∧
       ∀ x : Run, x ∈ decodeRuns cols ↔
         (x.vel ≠ 0 ∧ x.on < x.off ∧ x.off ≤ cols.length ∧
@@ -534,10 +540,21 @@ theorem decode_spec (rows : Nat) (cols : List (List Int)) (td : Int) :
           (x.off = cols.length ∨ cellAt cols x.pitch x.off ≠ x.vel)) := by
   constructor
   · rintro ⟨h1, h2⟩
-    simp [decode, h1, h2]
+    simp [decode, h1, h2, tbl_dec_full, tbl_dec_piano]
   · intro init hinit
     obtain ⟨h1, h2, h3⟩ := decodeRuns_spec cols
-    exact ⟨decode_eq rows cols td init hinit, h1, h2, h3⟩
+    exact ⟨fun h0 hne => h0 ▸ decode_div_zero rows cols hne, decode_eq rows cols td init hinit, h1, h2, h3⟩
+
+/-- an empty roll and a single column: no notes / one note per non-zero cell of the column -/
+example : decode 128 [] 8 = some [] := by decide +kernel
+example : decode 88 [] 0 = some [] := by decide +kernel
+example : decode 88 [[0, -3, 0, 7] ++ List.replicate 84 0] 2 = some [(22, 0, 1/2, -3), (24, 0, 1/2, 7)] := by decide +kernel
+example : decode 88 [[0, -3, 0, 7] ++ List.replicate 84 0] 0 = none := by decide +kernel
+example : decode 87 [] 8 = none := by decide +kernel
+/-- negative values are velocities like any other: runs of -1, -1 then 2, 2 then -1 in one row -/
+example : decode 128 ((List.replicate 2 (List.replicate 60 0 ++ [-1] ++ List.replicate 67 0)) ++
+      (List.replicate 2 (List.replicate 60 0 ++ [2] ++ List.replicate 67 0)) ++ [List.replicate 60 0 ++ [-1] ++ List.replicate 67 0]) (1/2)
+    = some [(60, 0, 4, -1), (60, 4, 4, 2), (60, 8, 2, -1)] := by decide +kernel
 
 /-- the sort key is the lexicographic order on (onset, pitch, offset, velocity) -/
 theorem decode_order (a b : Run) : runLe a b = true ↔
@@ -552,7 +569,7 @@ theorem decode_encode (o : Opts) (notes : List Note) (r : Roll) (ho : RoundTripO
     (h : makePianoroll o notes = some r) (hg : ∀ n ∈ notes, GridAligned o n) (hv : ∀ n ∈ notes, 0 < n.vel)
     (hnt : NonTouching notes)
     (hpr : o.pianoRange = true → ∀ n ∈ notes, 21 ≤ n.pitch ∧ n.pitch ≤ 108) :
-    ∃ out, decode r.rows.toNat r.toCols o.timeDiv = some out ∧
+    ∃ out, decode r.rows.toNat r.toCols (o.timeDiv : Rat) = some out ∧
       out ~ notes.map (fun n => (n.pitch, n.onset, n.dur, n.vel)) :=
   decode_encode_aux o notes r ho h hg hv hnt hpr
 
